@@ -685,7 +685,7 @@ var vfClauses = []vrClause{
 	{
 		Prop: "C07", Name: "write-fault",
 		Bound: "exhaustive: names {'', 'a', '>x y'} x seq lengths {0,1,2,79,80,81,160,161} (thorough every length 0..250) x every k in 0..len(output)+1; then random records with random k",
-		Rule:  "Write to a writer that accepts k bytes in total and then fails returns a non-nil error iff k < len(reference output); no panic",
+		Rule:  "Write to a writer that accepts k bytes in total and then fails returns a non-nil error iff k < the number of bytes Write emits to a writer that never fails; no panic",
 		Gen:   vfGenWriteFault,
 		Run:   vfRunWriteFault,
 	},
@@ -1198,6 +1198,9 @@ func vfGenReadFault(g *vrGen) {
 		} else {
 			d = vfLayout(vfRandRecs(g.Rand, 3), []int{1 + g.Rand.Intn(90)}, []int{g.Rand.Intn(2)}, g.Rand.Intn(2) == 0, g.Rand.Intn(2) == 0)
 		}
+		if len(d) > 400 {
+			continue // every offset repeats the whole data in the case key: keep the files small
+		}
 		enc := vrB(d)
 		for off := 0; off <= len(d); off++ {
 			if !emit(enc, off, []string{"once", "forever"}[g.Rand.Intn(2)], []int{0, 0, 1, 7}[g.Rand.Intn(4)]) {
@@ -1217,9 +1220,18 @@ func vfRunWriteFault(in map[string]any) vrResult {
 	if k < 0 {
 		k = 0
 	}
-	full := len(vfEncode(r, "\n"))
 	f := &Fasta{Name: bytes.Clone(r.Name), Sequence: bytes.Clone(r.Seq)}
+	// full = number of bytes Write emits when nothing fails (the statement's
+	// "everything was accepted"), measured rather than derived from a layout.
+	var all bytes.Buffer
 	var err error
+	if p := vrCatch(func() { err = f.Write(&all) }); p != nil {
+		return vfFail(fmt.Sprintf("Write to a bytes.Buffer panicked: %v", p), "no panic")
+	}
+	if err != nil {
+		return vfFail(fmt.Sprintf("Write to a bytes.Buffer returned %v", err), "nil error")
+	}
+	full := all.Len()
 	if p := vrCatch(func() { err = f.Write(&vfLimitWriter{left: k}) }); p != nil {
 		return vfFail(fmt.Sprintf("Write panicked: %v", p), "no panic")
 	}
